@@ -132,6 +132,8 @@ MALFORMED = [
     "Xx2", "A", "Zz3O", "h2O", "H2o", "Uuo", "CaCO3 6H2Q",
     # undefined isotope / charge
     "Fe[99]", "C[14]", "Ne{+}", "Fe{9+}", "H[1]{2+}", "O{3-}", "He[3]",
+    # D and T are isotopes already: a further isotope tag names nothing
+    "D[3]2O", "T[1]", "D[99]", "D[3]{+}Cl{-}",
     # malformed isotope
     "Fe[0]", "Fe[056]", "Fe[5", "Fe56]", "Fe[]", "Fe[5.6]", "Fe [56]",
     # malformed ion
